@@ -16,7 +16,7 @@ Words(v, rem) == {W(x) : x \in {0, 1, 2, 3, 4, 5, 6, 7, 8, 9, 10, 11, 12, 13, 15
                \cup {<<255, 255, 255, 255>>, <<255, 255, 255, 248>>, <<128, 0, 0, 0>>, <<127, 255, 255, 255>>, <<0, 1, 0, 1>>, <<0, 0, 16, 1>>}
 PutW(m, off, w) == [i \in 1..Len(m) |-> IF i > off /\ i <= off + 4 THEN w[i - off] ELSE m[i]]
 Put8(m, off, v) == [i \in 1..Len(m) |-> IF i = off + 1 THEN v ELSE m[i]]
-Bytes8 == {0, 1, 4, 5, 6, 8, 17, 58, 69, 96, 129, 134, 221, 255}
+Bytes8 == {0, 1, 4, 5, 6, 8, 17, 43, 44, 50, 51, 58, 60, 69, 96, 129, 134, 135, 221, 255}
 (* structural mutation: the sampled packet of a raw-header record cut at every length (the sampler's snap length),
    re-encoded consistently (header length, XDR padding, record and sample lengths) *)
 CutPackets == <<Pkt(1, -1, FALSE, "tcp", Extra(0)), Pkt(1, 100, FALSE, "udp", Extra(1)), Pkt(1, 0, FALSE, "udp", Extra(1)), Pkt(1, 4095, TRUE, "tcp", Extra(2)),
